@@ -528,4 +528,20 @@ def Bot.feed (b : Bot) (m0 : Msg) : Bot × Exc :=
 
 def Bot.feedAll (b : Bot) (ms : List Msg) : Bot := ms.foldl (fun b m => (b.feed m).1) b
 
+/-- the messages `Irc.doJoin` queues when the bot sees its own JOIN, in the order `takeMsg` hands them to
+the driver (`IrcMsgQueue`: MODE is a normal-priority command, WHO a low-priority one):
+`MODE <channels>`, `MODE <channel> +b` for each channel of the comma list, `WHO <channels> %tuhnairf,1` -/
+def joinRequests (a0 : Str) : List Msg :=
+  ⟨[], "MODE".toList, [a0]⟩ ::
+    ((splitChar ',' a0).map (fun c => (⟨[], "MODE".toList, [c, "+b".toList]⟩ : Msg)) ++
+      [⟨[], "WHO".toList, [a0, "%tuhnairf,1".toList]⟩])
+
+/-- what `feedMsg` makes the bot send (only the requests of `Irc.doJoin` are modelled) -/
+def Bot.out (b : Bot) (m0 : Msg) : List Msg :=
+  let m := if m0.pfx = b.nick then { m0 with pfx := if b.pfx.isEmpty then m0.pfx else b.pfx } else m0
+  let nick := if m.cmd ∈ Gen.nickSetters then (match m.args with | a0 :: _ => a0 | [] => b.nick) else b.nick
+  match cmdOf m.cmd, m.args with
+  | .join, a0 :: _ => if m.nick = nick then joinRequests a0 else []
+  | _, _ => []
+
 end C10
